@@ -99,8 +99,11 @@ def main(tier, seed):
     for pth in sorted(glob.glob(os.path.join(VERIF, "corpus", "C04", "diag", "*.exp"))):
         t_ = open(pth).read()
         m_ = re.match(r"-- expect:([^\n]*)\n", t_)
-        catalogue.append(("catalogue_" + os.path.basename(pth)[:-4], "corpus/C04/diag/" + os.path.basename(pth), t_,
-                          {"codes": [int(c[2:]) for c in m_.group(1).split()]} if m_ else {}))
+        mk_ = re.search(r"^-- known: (\S+)$", t_, re.M)
+        ex_ = {"codes": [int(c[2:]) for c in m_.group(1).split()]} if m_ else {}
+        if mk_:
+            ex_["known"] = mk_.group(1)       # an open finding: the unchanged tools accept this faulty schema
+        catalogue.append(("catalogue_" + os.path.basename(pth)[:-4], "corpus/C04/diag/" + os.path.basename(pth), t_, ex_))
     for k in range(nsch):
         r = rng(seed, "c04/%d" % k)
         S = G.gen_schema(r, name="gen_%d" % k, keywordish=(k % 4 == 0))
@@ -111,6 +114,9 @@ def main(tier, seed):
             # REPEAT control, recursion through a SELECT, nested functions, ALIAS / QUERY, redeclared attributes ...)
             for pth in sorted(glob.glob(os.path.join(VERIF, "corpus", "C04", "valid", "*.exp"))):
                 cases.append(("valid", "corpus/C04/valid/" + os.path.basename(pth), open(pth).read(), {}))
+            # schemas on which only the agreement of message and status is judged
+            for pth in sorted(glob.glob(os.path.join(VERIF, "corpus", "C04", "other", "*.exp"))):
+                cases.append(("either", "corpus/C04/other/" + os.path.basename(pth), open(pth).read(), {}))
         if k % 5 == 1:
             # multi-schema file with USE FROM
             S2 = G.gen_schema(r, name="gen_%d_b" % k, n_ent=3, n_types=2)
@@ -128,12 +134,20 @@ def main(tier, seed):
             class_hist[cls] = class_hist.get(cls, 0) + 1
             nontrivial.add((cls, desc.split(" ")[0]))
             what = None
+            sig_c04 = None
             for (tool, rc, diags, files, txt) in verdicts:
                 nerr = sum(1 for d in diags if d[0] == "ERROR")
                 if rc < 0 or rc > 100:
                     what = "%s died (status %d) on %s" % (tool, rc, desc)
                 elif (rc != 0) != (nerr > 0):
                     what = "%s: exit status %d with %d ERROR diagnostics (%s)" % (tool, rc, nerr, desc)
+                elif rc == 0 and re.search(r"^ERROR\b", txt, re.M):
+                    # a message that calls itself an error outside the numbered diagnostics
+                    what = "%s prints '%s' and exits with status 0 (%s)" % (tool, re.search(r"^ERROR[^\n]*", txt, re.M).group(0)[:80], desc)
+                    if "unexpected type in EXPresolve" in txt and "shared_enum_item" in desc:
+                        sig_c04 = "ambiguous_enum_item_internal_error"
+                elif cls == "either":
+                    pass
                 elif cls == "valid" and rc != 0:
                     what = "%s rejects a valid schema: %s" % (tool, [d[3] for d in diags][:2])
                 elif cls != "valid" and rc == 0:
@@ -146,12 +160,16 @@ def main(tier, seed):
                     what = "%s accepted the schema but produced no output" % tool
                 if what:
                     break
+            if what is None and cls == "either":
+                pass
             if what is None and len(set(v[1] != 0 for v in verdicts)) != 1:
                 what = "the tools disagree: %s (%s)" % ([(v[0], v[1]) for v in verdicts], desc)
+            if what and expect.get("known") and ("accepts a schema" in what or "the tools disagree" in what):
+                sig_c04 = expect["known"]
             if what:
                 oracle_fail += 1
                 p = save("c04-%d-%d-%s.exp" % (seed, k, cls), text)
-                res.violation(what, {"input_file": p, "class": cls, "replay": "%s/bin/check-express %s; echo $?" % (bdir, p)})
+                res.violation(what, {"input_file": p, "class": cls, "replay": "%s/bin/check-express %s; echo $?" % (bdir, p)}, signature=sig_c04)
                 continue
             # correspondence: the printed diagnostics through the model of main()
             tool, rc, diags, files, txt = verdicts[0]
